@@ -22,6 +22,8 @@ THEOREMS = [
     "Nix.C19.C19_no_unguarded_stamp",
     "Nix.C19.C19_unguarded_would_stamp",
     "Nix.C19.C19_switch_off_call_unchanged",
+    "Nix.C19.C19_file_members_never_stamp",
+    "Nix.C19.C19_reopen_keeps_stamps",
     "Nix.C19.C19_stamp_sites",
     "Nix.C19.C19_foreign_calls",
     "Nix.C19.C19_no_foreign_elsewhere",
